@@ -2,6 +2,7 @@
 D1 coordinate offsets of every registered reader / writer (abstract interpretation with symbolic file fields),
 D2 sorted on read, D3 auto-detection lands in the registry, D4 float precision on write."""
 import ast
+import itertools
 import re
 from fractions import Fraction as Fr
 
@@ -344,6 +345,56 @@ def d3_sniff(chk, prog):
                "a seekable input is not rewound after format sniffing: the first line(s) would be lost")
 
 
+def d3b_roundtrip_detection(chk, prog):
+    chk.rule("sniff-own-output", "the first line a writer of format F emits (representative chromosome names, strands, gene labels) is classified by "
+             "sniff_region_format as F's own reader family: what the package writes it must recognise when reading back with read_auto")
+    writers = registry(prog, "WRITERS")
+    wm = prog.module("skgenome.tabio").assigns.get("WRITERS")
+    header = {k.value: bool(v.elts[1].value) for k, v in zip(wm.keys, wm.values) if isinstance(v, ast.Tuple) and len(v.elts) == 2 and isinstance(v.elts[1], ast.Constant)}
+    family = {"bed": "bed", "bed3": "bed", "bed4": "bed", "interval": "interval", "text": "text", "tab": "tab"}
+    fi_s = prog.fn("skgenome.tabio.sniff_region_format")
+    tb = Table(chk, "sniff-own-output", "sniff_region_format(first line written by each writer)", fi_s.loc(), fi_s.qn)
+    variants = []
+    for chrom_, strand, gene in itertools.product(["chr1", "1", "chrUn_gl000220"], [None, "+", "-", "."], ["GENE", "-", "A,B"]):
+        variants.append((chrom_, strand, gene))
+    for fmt in sorted(family):
+        fi = writers.get(fmt)
+        if fi is None:
+            raise AnalysisError(f"writer {fmt} vanished")
+        for chrom_, strand, gene in variants:
+            W.reset()
+            cols = {"chromosome": Vec([chrom_]), "start": Vec([100]), "end": Vec([200])}
+            if fmt != "bed3":
+                cols["gene"] = Vec([gene])
+            if strand is not None and fmt == "interval":        # the property's BED round trip is the 3 / 4 column form: no strand column
+                cols["strand"] = Vec([strand])
+            if fmt == "tab":
+                cols["log2"] = Vec([Fr(1, 2)])
+            it = Interp(prog, Model())
+            out = tb.guard(lambda: it.run(fi.qn, [DF(cols, 1)]), f"write {fmt}")
+            if out is None:
+                continue
+            if isinstance(out, DF):
+                names = [c for c in out.cols if not c.startswith("__")]
+                fields = [out.cols[c].v[0] for c in names]
+                if any(isinstance(x, (Term, FStr)) for x in fields):
+                    fields = [str(T(x).cval()) if isinstance(x, Term) and x.is_const() else x for x in fields]
+                line = "\t".join(names) if header.get(fmt) else "\t".join(str(x) for x in fields)
+            elif isinstance(out, Vec) and isinstance(out.v[0], str):
+                line = out.v[0]
+            else:
+                raise AnalysisError(f"C08-D3b: cannot render the output of writer {fmt}: {out!r}")
+            model = Model()
+            model.ext["Bio.File.as_handle"] = lambda it_, infile, *a, line=line, **k: [line + "\n"]
+            model.prims["skgenome.tabio.get_filename"] = lambda it_, f: None
+            it2 = Interp(prog, model)
+            got = tb.guard(lambda: ("fmt", it2.run(fi_s.qn, ["<stream>"])), f"sniff {fmt}")
+            if got is None:
+                continue
+            tb.cell(got[1] == family[fmt], dict(written_as=fmt, line=line, strand=strand, detected=got[1], want=family[fmt]))
+    tb.done("a file written by the package is not recognised as its own format by auto-detection (read_auto would parse it with another reader)")
+
+
 def d4_precision(chk, prog):
     chk.clause("D4", "floats are written with >= 6 significant digits")
     chk.rule("float-format", "every DataFrame.to_csv in tabio.write / cmdutil.write_dataframe passes float_format='%.Ng' with N >= 6")
@@ -371,6 +422,7 @@ def run(chk):
     d1_offsets(chk, prog)
     d2_sorted(chk, prog)
     d3_sniff(chk, prog)
+    d3b_roundtrip_detection(chk, prog)
     d4_precision(chk, prog)
 
 
